@@ -10,6 +10,7 @@ use std::alloc::{GlobalAlloc, Layout, System};
 use std::io::Cursor;
 use std::sync::atomic::{AtomicUsize, Ordering};
 
+mod filters;
 mod fixedloc;
 mod cipher;
 mod codec;
@@ -75,6 +76,7 @@ fn main() {
         "packets" => packets::roundtrip(seed),
         "locale" => conn::locale(seed),
         "fixed_locale" => fixedloc::sweep(seed),
+        "filters" => filters::sweep(seed),
         "limits" => conn::limits(seed),
         "session" => conn::session(seed),
         "enc_response" => conn::enc_response(seed),
